@@ -122,8 +122,18 @@ class Fn:
                     if len(s.targets) != 1:
                         self.fail(s, 'chained assignment')
                     t = s.targets[0]
+                    if isinstance(t, ast.Tuple) and isinstance(s.value, ast.Call):
+                        f_ = s.value.func
+                        tgt_ = self.nested.get(f_.id) if isinstance(f_, ast.Name) else None
+                        if tgt_ is not None and len(getattr(tgt_, 'ret_types', ())) == len(t.elts):
+                            for a, rt in zip(t.elts, tgt_.ret_types):
+                                if isinstance(a, ast.Name):
+                                    self.note_type(a.id, rt)
+                        continue
                     if isinstance(t, ast.Tuple):
                         if not isinstance(s.value, ast.Tuple) or len(t.elts) != len(s.value.elts):
+                            if getattr(self, 'kinds', None) is not None:
+                                continue          # possibly in a branch the specialisation removes
                             self.fail(s, 'tuple assignment shape')
                         for a, b in zip(t.elts, s.value.elts):
                             if isinstance(a, ast.Name):
@@ -167,8 +177,47 @@ class Fn:
         except Untranslatable:
             return None
 
+    # ---------- specialisation (class mode): tests whose value is fixed by the declared kind of a parameter
+    def kind_of(self, e):
+        """'none' / 'pair' / 'scalar' for an expression whose kind is fixed by the specialisation"""
+        kinds = getattr(self, 'kinds', {})
+        if isinstance(e, ast.Name) and e.id in kinds:
+            return kinds[e.id]
+        if isinstance(e, ast.Subscript) and isinstance(e.value, ast.Name) and kinds.get(e.value.id) == 'pair':
+            return 'scalar'
+        return None
+
+    def const_of(self, e):
+        """True / False when the test is decided by the specialisation, else None"""
+        if isinstance(e, ast.Compare) and len(e.ops) == 1 and isinstance(e.comparators[0], ast.Constant) \
+                and e.comparators[0].value is None and isinstance(e.ops[0], (ast.Is, ast.IsNot)):
+            k = self.kind_of(e.left)
+            if k is None:
+                return None
+            r = (k == 'none')
+            return r if isinstance(e.ops[0], ast.Is) else not r
+        if isinstance(e, ast.Call) and isinstance(e.func, ast.Name) and e.func.id == 'isinstance' and len(e.args) == 2:
+            k = self.kind_of(e.args[0])
+            tgt = ast.unparse(e.args[1])
+            if k is not None and tgt.endswith('Sequence'):
+                return k == 'pair'
+            return None
+        if isinstance(e, ast.UnaryOp) and isinstance(e.op, ast.Not):
+            c = self.const_of(e.operand)
+            return None if c is None else not c
+        return None
+
     # ---------- expressions: returns (code, type, may_fail)
     def cx(self, e):
+        c0 = self.const_of(e) if getattr(self, 'kinds', None) else None
+        if c0 is not None:
+            return ('true' if c0 else 'false'), 'bool', False
+        if isinstance(e, ast.Attribute) and isinstance(e.value, ast.Name) and e.value.id == 'self' \
+                and ('self_' + e.attr) in self.types:
+            return 'st.self_%s' % e.attr, self.types['self_' + e.attr], False
+        if isinstance(e, ast.Subscript) and isinstance(e.value, ast.Name) and getattr(self, 'kinds', {}).get(e.value.id) == 'pair' \
+                and isinstance(e.slice, ast.Constant) and e.slice.value in (0, 1):
+            return 'st.%s_%d' % (e.value.id, e.slice.value), 'rat', False
         if isinstance(e, ast.Constant):
             if isinstance(e.value, bool):
                 return ('true' if e.value else 'false'), 'bool', False
@@ -342,9 +391,13 @@ class Fn:
         return code, 'rat', o
 
     def cx_call(self, e):
+        f = e.func
+        if getattr(self, 'kinds', None) is not None:
+            r = self.cx_call_class(e)
+            if r is not None:
+                return r
         if e.keywords:
             self.fail(e, 'keyword arguments')
-        f = e.func
         name = None
         if isinstance(f, ast.Name):
             name = f.id
@@ -460,6 +513,96 @@ class Fn:
     def lean_name(self):
         return self.qual
 
+    def cx_call_class(self, e):
+        f = e.func
+        name = None
+        if isinstance(f, ast.Attribute) and isinstance(f.value, ast.Name) and f.value.id == 'np':
+            name = 'np.' + f.attr
+        elif isinstance(f, ast.Name):
+            name = f.id
+        if name == 'np.searchsorted' and len(e.args) == 2 and len(e.keywords) == 1 and e.keywords[0].arg == 'side' \
+                and isinstance(e.keywords[0].value, ast.Constant) and e.keywords[0].value.value in ('left', 'right'):
+            a, ta, oa = self.cx(e.args[0]); v, tv, ov = self.cx(e.args[1])
+            if ta != 'arr' or tv not in ('int', 'rat'):
+                self.fail(e, 'searchsorted argument types')
+            fn = 'npSearchRight' if e.keywords[0].value.value == 'right' else 'npSearchLeft'
+            code, o = self.lift([(a, oa), (v, ov)], lambda n: '(%s %s %s)' % (fn, n[0], self.to_rat(n[1], tv)))
+            return code, 'int', o
+        if e.keywords:
+            return None
+        if name == 'np.sum' and len(e.args) == 1:
+            a, ta, oa = self.cx(e.args[0])
+            if ta != 'arr': self.fail(e, 'np.sum of non-array')
+            code, o = self.lift([(a, oa)], lambda n: '(vSum %s)' % n[0]); return code, 'rat', o
+        if name == 'sum' and len(e.args) == 1 and isinstance(e.args[0], ast.Compare) and len(e.args[0].ops) == 1 \
+                and isinstance(e.args[0].ops[0], ast.Eq):
+            # `sum(self.x == t)`: number of array entries equal to the scalar
+            a, ta, oa = self.cx(e.args[0].left); v, tv, ov = self.cx(e.args[0].comparators[0])
+            if ta != 'arr' or tv not in ('int', 'rat'): self.fail(e, 'sum(array == scalar) expected')
+            code, o = self.lift([(a, oa), (v, ov)], lambda n: '(vCountEq %s %s)' % (n[0], self.to_rat(n[1], tv)))
+            return code, 'int', o
+        if name == 'np.all' and len(e.args) == 1:
+            c, tc, oc = self.cx(e.args[0])
+            if tc != 'bool': self.fail(e, 'np.all of a non-scalar')
+            return c, tc, oc
+        if isinstance(f, ast.Name) and f.id in self.nested and hasattr(self.nested[f.id], 'pair_params'):
+            # helper closure of a method: `self` fields first, a pair argument as its two components
+            target = self.nested[f.id]
+            parts = [('st.%s' % fld, False) for fld in (target.self_fields if getattr(target, 'closure_self', False) else [])]
+            orig = [a_.arg for a_ in target.orig_args]
+            if len(e.args) != len(orig):
+                self.fail(e, 'call of %s with %d arguments' % (f.id, len(e.args)))
+            for a, pn in zip(e.args, orig):
+                if target.pair_params.get(pn) == 'pair':
+                    if self.kind_of(a) != 'pair' or not isinstance(a, ast.Name):
+                        self.fail(e, 'argument %s of %s must be a pair' % (pn, f.id))
+                    parts.append(('st.%s_0' % a.id, False)); parts.append(('st.%s_1' % a.id, False))
+                else:
+                    c, t, o = self.cx(a)
+                    if t not in ('int', 'rat'): self.fail(e, 'argument %s of %s' % (pn, f.id))
+                    parts.append((c if (o or t == 'rat') else self.to_rat(c, t), o))
+                    if o and t == 'int': self.fail(e, 'int-valued failing argument')
+            names, binds = [], []
+            for c, o in parts:
+                if o:
+                    v = self.fresh(); binds.append((v, c)); names.append(v)
+                else:
+                    names.append('(%s)' % c)
+            s_ = '%s F %s' % (target.lean_name(), ' '.join(names))
+            for v, c in reversed(binds):
+                s_ = 'Option.bind (%s) fun %s => %s' % (c, v, s_)
+            if target.ret is None:
+                self.fail(e, 'helper returning a tuple used as a value')
+            return '(%s)' % s_, (target.ret if target.ret != 'tuple' else 'tuple'), True
+        if isinstance(f, ast.Attribute) and isinstance(f.value, ast.Name) and f.value.id == 'self':
+            # a method of the same object: the specialisation is chosen by the kinds of the arguments
+            kinds = tuple(self.kind_of(a) or ('none' if (isinstance(a, ast.Constant) and a.value is None) else 'scalar') for a in e.args)
+            target = self.tr.methods.get((f.attr, kinds)) or (self.tr.methods.get((f.attr, ('none',))) if not e.args else None)
+            if target is None:
+                self.fail(e, 'call of self.%s%s: no translated specialisation' % (f.attr, kinds))
+            parts = []
+            for fld in target.self_fields:
+                parts.append(('st.%s' % fld, False))
+            for a, k in zip(e.args, kinds):
+                if k == 'pair':
+                    if not isinstance(a, ast.Name): self.fail(e, 'pair argument must be a name')
+                    parts.append(('st.%s_0' % a.id, False)); parts.append(('st.%s_1' % a.id, False))
+                elif k == 'scalar':
+                    c, t, o = self.cx(a); parts.append((self.to_rat(c, t) if not o else c, o))
+            names, binds = [], []
+            for c, o in parts:
+                if o:
+                    v = self.fresh(); binds.append((v, c)); names.append(v)
+                else:
+                    names.append('(%s)' % c)
+            s_ = '%s F %s' % (target.lean_name(), ' '.join(names))
+            for v, c in reversed(binds):
+                s_ = 'Option.bind (%s) fun %s => %s' % (c, v, s_)
+            if target.ret is None:
+                self.fail(e, 'method returning a tuple used as a value')
+            return '(%s)' % s_, target.ret, True
+        return None
+
     # ---------- statements
     def set_field(self, name, code):
         return '{ st with %s := %s }' % (lname(name), code)
@@ -518,6 +661,17 @@ class Fn:
             return self.assign(s, rest, ind, assigned)
         if isinstance(s, ast.If) and isinstance(s.test, ast.Constant) and s.test.value is True and not s.orelse:
             return self.block(list(s.body) + rest, ind, assigned)          # `with nogil:` block
+        if isinstance(s, ast.If) and getattr(self, 'kinds', None) and self.const_of(s.test) is not None:
+            # decided by the specialisation: only the live branch is translated
+            live = s.body if self.const_of(s.test) else s.orelse
+            ends = bool(live) and isinstance(live[-1], (ast.Return, ast.Raise))
+            return self.block(list(live) + ([] if ends else rest), ind, assigned)
+        if isinstance(s, ast.Assert) and getattr(self, 'kinds', None) and self.const_of(s.test) is True:
+            return self.block(rest, ind, assigned)
+        if isinstance(s, ast.Raise):
+            return pad + 'Flow.err'
+        if isinstance(s, ast.Expr) and isinstance(s.value, ast.Call) and isinstance(s.value.func, ast.Name) and s.value.func.id == 'print':
+            return self.block(rest, ind, assigned)                          # debug output
         if isinstance(s, ast.If):
             c, tc, oc = self.cxr(s.test, assigned)
             if tc == 'int' and self.tr.pyx:
@@ -597,6 +751,8 @@ class Fn:
             targets = [tgt]; values = [value]
         else:
             t = s.targets[0]
+            if isinstance(t, ast.Tuple) and isinstance(s.value, ast.Call):
+                return self.assign_from_call(s, t, rest, ind, assigned)
             if isinstance(t, ast.Tuple):
                 targets = list(t.elts); values = list(s.value.elts)
             else:
@@ -665,6 +821,29 @@ class Fn:
         for _, name, c in stores:
             lines.append(pad + 'let st : %s.St := %s' % (self.qual, self.set_field(name, c)))
             assigned.add(name)
+        return '\n'.join(lines) + '\n' + self.block(rest, ind, assigned)
+
+    def assign_from_call(self, s, t, rest, ind, assigned):
+        pad = '  ' * ind
+        f = s.value.func
+        target = self.nested.get(f.id) if isinstance(f, ast.Name) else None
+        if target is None or len(t.elts) != len(target.ret_types) or not all(isinstance(x, ast.Name) for x in t.elts):
+            self.fail(s, 'tuple assignment from this call')
+        saved_ret = target.ret
+        target.ret = 'tuple'
+        try:
+            c, _, o = self.cx_call(s.value)
+        finally:
+            target.ret = saved_ret
+        v = self.fresh()
+        lines = [pad + 'Flow.ofOpt (%s) fun %s =>' % (c, v)]
+        n = len(t.elts)
+        for k, (x, rt) in enumerate(zip(t.elts, target.ret_types)):
+            proj = v + ''.join(['.2'] * k) + ('.1' if k < n - 1 else '')
+            want = self.types[x.id]
+            code = proj if rt == want else self.to_rat(proj, rt)
+            lines.append(pad + 'let st : %s.St := %s' % (self.qual, self.set_field(x.id, code)))
+            assigned.add(x.id)
         return '\n'.join(lines) + '\n' + self.block(rest, ind, assigned)
 
     def new_loop(self, test, body, assigned):
@@ -740,6 +919,32 @@ class Fn:
             if isinstance(s, ast.FunctionDef):
                 q = self.qual + '.' + s.name
                 sig = self.tr.sigs.get(q)
+                if sig is None and getattr(self, 'kinds', None) is not None:
+                    # class mode: helper closures; a parameter that is indexed is a pair, the others floats
+                    sub_kinds, sig = {}, []
+                    for a_ in s.args.args:
+                        idx = any(isinstance(n, ast.Subscript) and isinstance(n.value, ast.Name) and n.value.id == a_.arg for n in ast.walk(s))
+                        if idx:
+                            sub_kinds[a_.arg] = 'pair'; sig += [(a_.arg + '_0', 'rat'), (a_.arg + '_1', 'rat')]
+                        else:
+                            sig.append((a_.arg, 'rat'))
+                    uses_self = any(isinstance(n, ast.Name) and n.id == 'self' for n in ast.walk(s))
+                    if uses_self:
+                        sig = [(f_, 'arr') for f_ in self.self_fields] + sig
+                    import copy as _copy
+                    orig_args = list(s.args.args)
+                    s = _copy.deepcopy(s)
+                    s.args.args = [ast.arg(arg=n_) for n_, _ in sig]
+                    sub = Fn(self.tr, q, s, sig)
+                    sub.orig_args = orig_args
+                    sub.kinds = sub_kinds
+                    sub.self_fields = self.self_fields if uses_self else []
+                    sub.closure_self = uses_self
+                    sub.pair_params = sub_kinds
+                    sub.infer_locals()
+                    out.append(sub.translate())
+                    self.nested[s.name] = sub
+                    continue
                 if sig is None:
                     self.fail(s, 'nested function without signature')
                 sub = Fn(self.tr, q, s, sig)
@@ -803,6 +1008,7 @@ class Fn:
 class Translator:
     pyx = False
     IDX, SET = 'pyIdx', 'pySet'
+    methods = {}
 
     def __init__(self, repo):
         self.repo = repo
@@ -895,8 +1101,79 @@ class PyxTranslator(Translator):
         return '\n'.join(out)
 
 
+class ClassTranslator(Translator):
+    """methods of the three function classes, specialised by the kind of their optional / polymorphic
+    argument (`interval` = None | a pair; `t` = a scalar): tests such as `interval is None`,
+    `isinstance(t, Sequence)` are decided by the specialisation and only the live branch is translated.
+    `self.x` etc. become record fields; `np.searchsorted`, `np.sum` are the Prelude functions."""
+    SPECS = [
+        # (file, class, method, Lean name, fields of self, [(param, kind)])
+        ('PieceWiseConstFunc.py', 'PieceWiseConstFunc', 'integral', 'pwc_integral_all', ['x', 'y'], [('interval', 'none')]),
+        ('PieceWiseConstFunc.py', 'PieceWiseConstFunc', 'integral', 'pwc_integral', ['x', 'y'], [('interval', 'pair')]),
+        ('PieceWiseConstFunc.py', 'PieceWiseConstFunc', 'avrg', 'pwc_avrg_all', ['x', 'y'], [('interval', 'none')]),
+        ('PieceWiseConstFunc.py', 'PieceWiseConstFunc', 'avrg', 'pwc_avrg', ['x', 'y'], [('interval', 'pair')]),
+        ('PieceWiseConstFunc.py', 'PieceWiseConstFunc', '__call__', 'pwc_call', ['x', 'y'], [('t', 'scalar')]),
+        ('PieceWiseLinFunc.py', 'PieceWiseLinFunc', 'integral', 'pwl_integral_all', ['x', 'y1', 'y2'], [('interval', 'none')]),
+        ('PieceWiseLinFunc.py', 'PieceWiseLinFunc', 'integral', 'pwl_integral', ['x', 'y1', 'y2'], [('interval', 'pair')]),
+        ('PieceWiseLinFunc.py', 'PieceWiseLinFunc', 'avrg', 'pwl_avrg_all', ['x', 'y1', 'y2'], [('interval', 'none')]),
+        ('PieceWiseLinFunc.py', 'PieceWiseLinFunc', 'avrg', 'pwl_avrg', ['x', 'y1', 'y2'], [('interval', 'pair')]),
+        ('PieceWiseLinFunc.py', 'PieceWiseLinFunc', '__call__', 'pwl_call', ['x', 'y1', 'y2'], [('t', 'scalar')]),
+        ('DiscreteFunc.py', 'DiscreteFunc', 'integral', 'disc_integral_all', ['x', 'y', 'mp'], [('interval', 'none')]),
+        ('DiscreteFunc.py', 'DiscreteFunc', 'integral', 'disc_integral', ['x', 'y', 'mp'], [('interval', 'pair')]),
+    ]
+
+    def run(self):
+        out = ['/-\n  Gen/Classes.lean — GENERATED by harness/py2lean.py from the function classes of /repo\n'
+               '  (pyspike/PieceWiseConstFunc.py, PieceWiseLinFunc.py, DiscreteFunc.py). Do not edit.\n-/\n'
+               'import PySpikeVerif.Gen.Prelude\n'
+               'set_option linter.unusedVariables false\n'
+               'namespace PySpike.GenCls\nopen PySpike.Gen\n']
+        self.methods = {}
+        trees = {}
+        for fname, cls, meth, lname_, fields, pk in self.SPECS:
+            if fname not in trees:
+                trees[fname] = ast.parse(open(os.path.join(self.repo, 'pyspike', fname), 'rb').read().decode('utf-8'))
+            cnode = [n for n in trees[fname].body if isinstance(n, ast.ClassDef) and n.name == cls]
+            if not cnode:
+                raise Untranslatable('%s: class %s not found' % (fname, cls))
+            mnode = [n for n in cnode[0].body if isinstance(n, ast.FunctionDef) and n.name == meth]
+            if not mnode:
+                raise Untranslatable('%s: method %s.%s not found' % (fname, cls, meth))
+            import copy as _copy
+            node = _copy.deepcopy(mnode[0])
+            argn = [a.arg for a in node.args.args]
+            if argn[0] != 'self' or argn[1:] != [p_ for p_, _ in pk]:
+                # further parameters must have defaults and are specialised to them
+                extra = argn[1 + len(pk):]
+                if argn[0] != 'self' or argn[1:1 + len(pk)] != [p_ for p_, _ in pk] or len(node.args.defaults) < len(extra):
+                    raise Untranslatable('%s.%s: parameter list %s' % (cls, meth, argn))
+            params = [('self_' + f_, 'arr') for f_ in fields]
+            kinds = {}
+            for p_, k in pk:
+                kinds[p_] = k
+                if k == 'pair':
+                    params += [(p_ + '_0', 'rat'), (p_ + '_1', 'rat')]
+                elif k == 'scalar':
+                    params.append((p_, 'rat'))
+            node.args.args = [ast.arg(arg=n_) for n_, _ in params]
+            node.args.defaults = []
+            fn = Fn(self, lname_, node, params)
+            fn.kinds = kinds
+            fn.self_fields = ['self_' + f_ for f_ in fields]
+            self.sigs = {}
+            out.append('-- %s.%s  (%s)\n' % (cls, meth, ', '.join('%s: %s' % (a_, b_) for a_, b_ in pk)))
+            out.append(fn.translate())
+            self.methods[(meth, tuple(k for _, k in pk))] = fn
+        out.append('end PySpike.GenCls\n')
+        return '\n'.join(out)
+
+
 def generate(repo='/repo'):
     return Translator(repo).run()
+
+
+def generate_classes(repo='/repo'):
+    return ClassTranslator(repo).run()
 
 
 def generate_pyx(repo='/repo'):
@@ -906,7 +1183,7 @@ def generate_pyx(repo='/repo'):
 if __name__ == '__main__':
     repo = sys.argv[1] if len(sys.argv) > 1 else '/repo'
     try:
-        sys.stdout.write(generate_pyx(repo) if (len(sys.argv) > 2 and sys.argv[2] == 'pyx') else generate(repo))
+        sys.stdout.write(generate_pyx(repo) if (len(sys.argv) > 2 and sys.argv[2] == 'pyx') else generate_classes(repo) if (len(sys.argv) > 2 and sys.argv[2] == 'classes') else generate(repo))
     except Untranslatable as ex:
         sys.stderr.write('Untranslatable: %s\n' % ex)
         sys.exit(3)
